@@ -141,9 +141,18 @@ CHECKS.update({
         'first data variable on the same depth and horizontal dimensions), C12_group_shares_reference, '
         'C12_depth_dimensions_removed and C12_depth_dimension_order_irrelevant (the code visits them in hash order); per run the '
         'variables present in the result and their dimension sets are compared with the model plan (datasets also hold variables '
-        'along a depth dimension only, which go with the dimension).',
-        'Trusted: Coq kernel; models Depth.v (xarray cumsum(skipna) / argmax / isel semantics modelled) and FloorPlan.v (the '
-        'order of dimensions within a reduced variable is left to xarray and compared as a set).',
+        'along a depth dimension only, which go with the dimension).  Model DepthCoord.v holds which variables the accessor '
+        'hands to ocean_floor as depth coordinates (Convention.depth_coordinates, depth_coordinate, '
+        'get_depth_coordinate_for_data_array, get_grid_kind, and the fixed-name lookups of the SHOC conventions): '
+        'C12_depth_coordinates_spec (marked by one of five attributes and on no grid, dataset order), '
+        'C12_bathymetry_is_not_a_depth_coordinate, C12_depth_markers (each marker suffices; positive read without regard to '
+        'case), C12_grid_kind, C12_default_depth_coordinate (least size, first of the smallest), '
+        'C12_depth_coordinate_for_array (unique fit, two that fit are refused), C12_shoc_depth_coordinates (fixed order, file '
+        'order irrelevant); per run datasets of six families carrying variables with every mixture of the markers on and off '
+        'the grids are asked all four questions and compared with the model.',
+        'Trusted: Coq kernel; models Depth.v (xarray cumsum(skipna) / argmax / isel semantics modelled), FloorPlan.v (the '
+        'order of dimensions within a reduced variable is left to xarray and compared as a set) and DepthCoord.v (attribute '
+        'strings as ASCII codes: str.lower modelled on ASCII only, which is what is generated).',
         'DESIGN.md section 4 C12'),
     'C13': (
         'Coq proof (loop invariant over the depth coordinates of a dimension: rows, physical depths and bounds reversed together; order; idempotence) + vm_compute correspondence',
